@@ -4,7 +4,7 @@ fn main() {
     mmsim::sut::init_cli_env();
     mmsim::util::install_counting_logger();
     mmsim::util::install_quiet_panic_hook();
-    let opts = SutOptions { with_scheduler: true, sample_rate: 48000, self_init_0: false };
+    let opts = SutOptions { with_scheduler: true, sample_rate: 48000, self_init_0: false, with_sampler: std::env::var("WITH_SAMPLER").is_ok() };
     for path in std::env::args().skip(1) {
         let src = std::fs::read_to_string(&path).unwrap();
         let r = mmsim::util::guarded(|| {
